@@ -587,11 +587,15 @@ def run(P, R, tier):
     # the class rule's address criterion is the mask test on the rule's own prefix length
     from . import c11
     from ..report import Remap
-    c11.matcher(P, Remap(R, {'C11.GRD.2': 'C13.GRD.1', 'C11.GRD.3': 'C13.GRD.1'}))
+    m11 = c11.matcher(P, Remap(R, {'C11.GRD.2': 'C13.GRD.1', 'C11.GRD.3': 'C13.GRD.1'}))
+    H11 = c11.compile_pass(P, Remap(R, {}))
+    c11.field_exhaustive(P, Remap(R, {'C11.TAB.2': 'C13.TAB.6'}), H11, m11)
     helper_cursor(P, R, fns)
     helper_outputs(P, R, fns)
     optional_outputs(P, R, fns)
     mask_forms(P, R, fns)
+    from .. import rules as _rules
+    _rules.no_static_locals(P, R, 'C13.WMC.1', fns, 'address code')
     R.floor('C13.TAB.5', 3, 'view width, output form, pending group')
     R.floor('C13.NULL.1', 2, 'optional prefix-length outputs of the parser and its helper')
     R.floor('C13.INIT.1', 2, 'uses of the dotted-quad helper\'s output')
